@@ -54,3 +54,72 @@ def is_macro_noise(s):
         x.startswith(("m:$crate::event", "m:$crate::level_enabled", "m:$crate::__", "m:$crate::valueset",
                       "m:$crate::fieldset", "m:$crate::callsite", "m:$crate::identify_callsite", "m:$crate::span",
                       "m:$crate::enabled", "m:$crate::metadata", "m:tracing::"))
+
+
+def counter_rule(ctx, R, field, step=None, label=None):
+    """monotone counter: every write to `field` anywhere (constructors aside) is `field := field + k` with k > 0
+    (`+=`, checked_add / wrapping_add accepted); at least one such write must exist"""
+    name = label or field.rsplit("::", 1)[1]
+    fname = field.rsplit("::", 1)[1]
+    n = 0
+    for b in sorted(ctx.w.bodies.values(), key=lambda b: b.id):
+        for bb, i, s in b.all_stmts():
+            if not (place_last_field(s["p"]) == field and isinstance(s["p"]["p"][-1], dict) and s["p"]["p"][-1].get("f") == fname):
+                continue
+            n += 1
+            ok = False
+            why = ""
+            lin = linear(b, s["r"]["o"]) if s["r"]["k"] == "use" else None
+            if lin and lin[0] == ("field", field) and lin[1] > 0 and (step is None or lin[1] == step):
+                ok = True
+            else:
+                at = Slicer(ctx.w).atoms(b, s["r"].get("o", {})) if s["r"]["k"] == "use" else set()
+                adds = [a for a in at if re.search(r"call:.*(checked_add|wrapping_add|saturating_add)$", a)]
+                ok = ("field:" + field in at) and bool(adds) and not any(re.search(r"(_sub|_mul|_div|_rem|::sub|::mul)$", a) for a in at if a.startswith("call:"))
+                why = f" (value atoms {sorted(at)[:5]})"
+            ctx.inst(R, f"counter:{name}:{b.id}#{n}", ok, s["s"], f"{name} advances by a positive step from its previous value" if ok else
+                     f"`{b.id}` writes {name} with something other than `{name} + k`{why}: identifiers / sequence numbers can repeat")
+    if n == 0 and ctx.strict:
+        ctx.bad(R, f"counter:{name}:anchor-missing", "", f"no write to `{field}` found: the counter is gone or never advanced")
+
+
+def sibling_profile(ctx, fid, callee_filter=None):
+    """(callees, fields written, fields read) of a function family, in-repo items only"""
+    calls, writes, reads = set(), set(), set()
+    for fb in ctx.w.family(fid):
+        for bb, t in fb.calls():
+            if is_macro_noise(t):
+                continue
+            f = t["f"]
+            if in_repo(f) and "{closure" not in f and (callee_filter is None or callee_filter(f)):
+                calls.add(f)
+        for bb, i, s in fb.all_stmts():
+            for f in place_fields(s["p"]):
+                if in_repo(f) and not f.startswith("{env}"):
+                    writes.add(f)
+            r = s["r"]
+            for o in [r.get("o"), r.get("a"), r.get("b")] + list(r.get("ops", [])):
+                pl = op_place(o) if isinstance(o, dict) else None
+                if pl:
+                    for f in place_fields(pl):
+                        if in_repo(f) and not f.startswith("{env}"):
+                            reads.add(f)
+    return calls, writes, reads
+
+
+def sibling_rule(ctx, R, a, b, expected_diff=(), what=""):
+    """Engler-style sibling check: two implementations of the same interface must use the same in-repo callees and touch the same
+    fields, except for the enumerated, explained differences"""
+    ba, bb_ = ctx.body(R, a), ctx.body(R, b)
+    if not ba or not bb_:
+        return
+    pa, pb = sibling_profile(ctx, a), sibling_profile(ctx, b)
+    exp = set(expected_diff)
+    diffs = []
+    for kind, xa, xb in (("calls", pa[0], pb[0]), ("writes", pa[1], pb[1]), ("reads", pa[2], pb[2])):
+        d = (xa ^ xb) - exp
+        d = {x for x in d if not x.startswith(a) and not x.startswith(b)}
+        if d:
+            diffs.append(f"{kind}: only in {a.rsplit('::', 1)[1]}: {sorted(xa - xb - exp)[:4]}, only in {b.rsplit('::', 1)[1]}: {sorted(xb - xa - exp)[:4]}")
+    ctx.inst(R, f"siblings:{a.rsplit('::', 1)[1]}~{b.rsplit('::', 1)[1]}", not diffs, ba.span, (what or "siblings use the same callees and fields") if not diffs else
+             f"sibling implementations `{a}` and `{b}` disagree ({'; '.join(diffs)}): one of them lacks a step the other performs")
